@@ -202,6 +202,30 @@ func (e *Env) lookupName(name string) (*Val, error) {
 			if v, ok := e.loop.phiVals[name]; ok {
 				return v, nil
 			}
+			// a hidden loop variable (rangeindex, rangeiter) of an ENCLOSING loop: not assigned in this loop, so it
+			// is simply its current value; `rangeindex@N` names the one of loop N explicitly
+			base, ord := name, 0
+			if i := strings.Index(name, "@"); i > 0 {
+				base = name[:i]
+				fmt.Sscanf(name[i+1:], "%d", &ord)
+			}
+			if base == "rangeindex" || base == "rangeiter" || ord > 0 {
+				var encl []*loopInfo
+				for _, l := range vc.loops {
+					if l != e.loop && l.blocks[e.loop.header] || (ord > 0 && l.ordinal == ord) {
+						encl = append(encl, l)
+					}
+				}
+				sort.Slice(encl, func(i, j int) bool { return len(encl[i].blocks) < len(encl[j].blocks) })
+				for _, l := range encl {
+					if ord > 0 && l.ordinal != ord {
+						continue
+					}
+					if v, ok := l.phiVals[base]; ok {
+						return v, nil
+					}
+				}
+			}
 		}
 		if v, ok := vc.params[name]; ok {
 			return v, nil
@@ -1117,7 +1141,7 @@ func (vc *FnVC) evalCall(env *Env, c ECall) (*Val, error) {
 		if err != nil {
 			return nil, err
 		}
-		return &Val{T: t, S: sx("i.pay", iv.S)}, nil
+		return vc.unboxPayload(env.st, iv.S, t), nil
 	}
 	// user spec functions
 	sf, ok := vc.G.C.Specs[c.Fn]
